@@ -232,6 +232,13 @@ class VCSym(VCBase):
         self.ctx.run.record(ob)
         return bool(ok)
 
+    def record(self, label, ok, backend, time_s=0.0, detail=""):
+        """obligation discharged (or not) by a back end other than z3 (sympy ideal membership, evaluation)"""
+        ob = core.Obligation("%s/%s" % (self.name, label), "discharged" if ok else "refuted", backend,
+                             time_s, self.ctx.path_id, {} if not ok else None, detail, 1)
+        self.ctx.run.record(ob)
+        return bool(ok)
+
     def recseq(self, fname, width, init, step, bits=None):
         return RecSeqSym(self, fname, width, init, step, bits)
 
@@ -510,6 +517,10 @@ class VCConc(VCBase):
         return FoldConc(data, init, step)
 
     def ground(self, label, ok, detail=""):
+        self.results.append(("%s/%s" % (self.name, label), bool(ok), detail))
+        return bool(ok)
+
+    def record(self, label, ok, backend, time_s=0.0, detail=""):
         self.results.append(("%s/%s" % (self.name, label), bool(ok), detail))
         return bool(ok)
 
